@@ -114,6 +114,11 @@ static std::string classify_sanitizer_text(const std::string& text, std::string*
     size_t b = pos + strlen("ERROR: AddressSanitizer: ");
     size_t e = text.find_first_of(" \n", b);
     kind = "asan:" + text.substr(b, e - b);
+    // Which flavour of invalid access a wild pointer produces depends on what happens to live at that address; fold the
+    // flavours into one class so that a replay in another process is recognised as the same violation.
+    static const char* const mem_kinds[] = {"asan:SEGV", "asan:heap-use-after-free", "asan:heap-buffer-overflow", "asan:global-buffer-overflow", "asan:stack-buffer-overflow", "asan:stack-buffer-underflow",
+                                            "asan:use-after-poison", "asan:unknown-crash", "asan:stack-use-after-scope", "asan:container-overflow", "asan:dynamic-stack-buffer-overflow", "asan:wild-jump"};
+    for (const char* mk : mem_kinds) if (kind == mk) { kind = "asan:invalid-memory-access"; break; }
   }
   else if ((pos = text.find("WARNING: ThreadSanitizer: ")) != std::string::npos) {
     size_t b = pos + strlen("WARNING: ThreadSanitizer: ");
